@@ -613,6 +613,28 @@ func (e1Engine) Generate(seed uint64, prop, tier string) (json.RawMessage, error
 		add(e1Step{K: "snap", N: n, Frac: g.Pick2(100, 101, 50)})
 		add(e1Step{K: "restart", N: n})
 	}
+	// snippet: caller id (+G): private messages reach the target only from somebody it shares a channel with;
+	// the target sits on several channels, the sender on some of them
+	callerID := func() {
+		if nsess < 2 {
+			return
+		}
+		a, b := g.Intn(nsess), g.Intn(nsess)
+		if a == b || a == svc || b == svc {
+			return
+		}
+		chans := []string{"#g1", "#g2", "#g3", "#g4"}
+		for _, c := range chans[:g.Range(2, 4)] {
+			add(e1Step{K: "line", S: b, Data: "JOIN " + c})
+		}
+		add(e1Step{K: "line", S: b, Data: "MODE {nicka} +G"})
+		if g.Chance(3, 4) {
+			add(e1Step{K: "line", S: a, Data: "JOIN " + g.Pick(chans[:3])})
+		}
+		add(e1Step{K: "line", S: b, Data: "NAMES"})
+		add(e1Step{K: "line", S: a, Data: g.Pick([]string{"PRIVMSG", "NOTICE"}) + " {nickb} :are you there?"})
+		add(e1Step{K: "line", S: a, Data: "PRIVMSG {nickb} :again"})
+	}
 	// snippet: several members on one channel, a membership-changing event, then channel and private traffic
 	chatter := func() {
 		if nsess < 3 {
@@ -666,6 +688,8 @@ func (e1Engine) Generate(seed uint64, prop, tier string) (json.RawMessage, error
 			captchaGate()
 		case r >= 571 && r < 577:
 			botLeaves()
+		case r >= 592 && r < 598:
+			callerID()
 		case (prop == "C02" || prop == "C10") && faulty && r >= 577 && r < 592:
 			snapSaga()
 		case r >= 500 && r < 540:
